@@ -10,6 +10,18 @@ TB = ("Trusted: rustc's name resolution, type checking and const evaluation as e
       "formulas and constant tables transcribed in rules/*.py. Floating-point rounding is outside this family.")
 
 CLAIMS = {
+    "C01": dict(
+        technique="conversion route graph from resolved derive output; TypeId guard table; symbolic inverse laws (exact rational normal forms); alpha dataflow",
+        category="other",
+        text=("Structural and algebraic necessary conditions, for every type pair at once: the >250 derived FromColorUnclamped impls are "
+              "expanded (from the resolved callees of the macro output) into chains of hand-written hops that must terminate, be loop-free, "
+              "retrace each other in reverse, agree on sub-paths and never pass through single-channel Luma; every TypeId shortcut must "
+              "compare the type arguments that justify its arm (a reinterpret arm needs the whole standard equal); the algebraic hops "
+              "(Xyz<->Yxy, Xyz<->Lab, Hsv<->Hwb, Okhsv<->Okhwb, Hsv->Hsl->Hsv) composed with their reverse normalise to the identity for all "
+              "inputs; hard-coded matrix pairs are mutual inverses; attaching alpha splits it off, converts only the colour and passes "
+              "alpha through. Does not decide the floating-point round-trip error, trigonometric hops or the Ok*/HSLuv searches."),
+        design_ref="DESIGN.md §3 C01",
+    ),
     "C02": dict(
         technique="symbolic normal form of resolved HIR vs published definitions; exact-arithmetic checks of literal tables",
         category="other",
